@@ -18,6 +18,8 @@ Result(c) ==
   LET g == c.cfg IN
   CASE c.kind = "list" ->
          IF c.op = "assign" THEN ListAssign(c.pre, g.vm, g.lo, g.hi, c.cs[1])
+         ELSE IF c.op = "default" THEN ListDefault(c.pre, g.lo, g.hi)
+         ELSE IF c.op = "reset" THEN ListReset(c.pre, g.lo, g.hi)
          ELSE ListOp(c.pre, g.vm, g.lo, g.hi, c.op, A3(c.a), c.xs)
     [] c.kind = "listlist" ->
          IF c.op = "assign" THEN NestAssign(c.pre, g.vm, g.ilo, g.ihi, g.lo, g.hi, c.cs[1])
@@ -72,7 +74,7 @@ Clauses(c) ==
      \cup (IF failed /\ (c.nitems # 0 \/ c.nchange # 0) THEN {"notified-on-failure"} ELSE {})
      \cup (IF failed /\ ~Same(c, c.post, IF c.kind = "set" THEN SetOf(c.pre) ELSE c.pre) THEN {"changed-on-failure"} ELSE {})
      \cup (IF ~failed /\ c.op = "assign" /\ c.nitems # 0 THEN {"items-event-on-assign"} ELSE {})
-     \cup (IF ~failed /\ c.kind = "list" /\ c.op # "assign" /\ ~L!EventsOK(c.pre, c.evs, c.post)
+     \cup (IF ~failed /\ c.kind = "list" /\ c.op \notin {"assign", "default", "reset"} /\ ~L!EventsOK(c.pre, c.evs, c.post)
            THEN {"list-event-law"} ELSE {})
      \cup (IF ~failed /\ c.kind \in {"dict", "set"} /\ c.op # "assign" /\ c.nitems > 1 THEN {"several-events"} ELSE {})
 Judge == i <= 0 \/ LET f == Clauses(Trace[i]) IN IF f = {} THEN TRUE ELSE PrintT(<<"REJECT", i, f>>)
